@@ -1,8 +1,15 @@
 """C11 - threshold labelling yields exactly the connected components.
 
-specs: Dset.tla, ConnPix.tla (dense raster scan), SparseCP.tla (sparse walk + splat), TraceCC.tla (certificates).
+specs: Dset.tla, ConnPix.tla (dense raster scan + its option arguments), SparseCP.tla (sparse walk + splat + the argument
+       handling of sparseframe.sparse_connected_pixels), TraceCC.tla (certificates).
 Mode A: every image TLC enumerates is run through the real kernels and Python wrappers; labels must equal the
-        model's labels element for element (normal build and ASan/UBSan build).
+        model's labels element for element (normal build and ASan/UBSan build).  The enumeration carries the option
+        arguments of the calls: ConnPix = images x con8 {0, 1} x verbose {0, 1, 2} (passed as they are, by position /
+        keyword / default, the kernel's banner swallowed; labelimage.verbose for labelpeaks); SparseCP "frame" = images x
+        threshold argument {None, exactly 0, negative, positive} x cut recorded in the frame's meta data {absent, the same
+        number, a number below, a number above - listed pixels on both sides of both numbers} x array names {default,
+        lima_segmenter's}; the expectation is always the labelling under the threshold REQUESTED (None = the recorded
+        cut, the documented default).  The cases of the kernels' own enumeration rotate through the same 26 classes.
 Mode C: large / adversarial images are labelled by the real kernels, the recorder adds a spanning forest and
         TLC validates the certificate against TraceCC (which decides "strictly above" itself, on the exact integer
         keys of the float32 values and of the float32 threshold).  Families (counted in the evidence notes):
@@ -14,9 +21,12 @@ Mode C: large / adversarial images are labelled by the real kernels, the recorde
         * call shapes judged by equality with a TraceCC-accepted array (the model is covariant under them - same kernel,
           same float32 values): cImageD11.connectedpixels under an explicit thread sweep (set through
           cimaged11_omp_set_num_threads, read back, restored; more threads than rows included), splat scratch sized
-          for a larger frame, labelimage.labelpeaks for every input dtype / layout, sparseframe.sparse_connected_pixels
-          with lima_segmenter.clean's array names next to a decoy array, SparseScan.cplabel(threshold, countall) on
-          multi-frame scan files made of the certificate images (empty and all-background frames between them).
+          for a larger frame, labelimage.labelpeaks for every input dtype / layout and verbose 0 / 1 / 2,
+          cImageD11.connectedpixels with verbose 1 and 2 for both connectivities (option crossing: must equal the
+          verbose = 0 array), sparseframe.sparse_connected_pixels through its 26 argument classes (recorded cut placed
+          among the image's own values), SparseScan.cplabel(threshold, countall) on multi-frame scan files made of the
+          certificate images (empty and all-background frames between them; threshold 0 also by leaving the argument
+          to its default).
         NaN pixels: the statement is silent; what the kernels do is recorded under notes["observations"] only.
 """
 import os, sys, json, subprocess, time, io, contextlib, collections
@@ -26,22 +36,32 @@ import c11_replay
 
 PROP = "C11"
 INV = ["InBounds", "DsInv", "Defined", "Background", "Partition", "Numbering", "Emit"]
+VERBS = "{0, 1, 2}"                                # the verbose argument's values TLC enumerates for this check
+ALL_T = '{"none", "zero", "neg", "pos"}'            # SparseCP.tla: classes of the wrapper's threshold argument
+ALL_R = '{"absent", "same", "below", "above"}'      # ... of the cut recorded in the frame's meta data
+ALL_N = '{"default", "named"}'                      # ... of its label_name / data_name arguments
+NWRAP = 26                                          # |{(targ, rec, names)}|: (1 + 3 * 4) * 2
 
 
-def dense_cfg(ns, nf, emit=True, rowpar=False):
-    return common.write_cfg(os.path.join(common.scratch(), "connpix_%dx%d%s.cfg" % (ns, nf, "_rowpar" if rowpar else "")),
-                            constants={"NS": ns, "NF": nf, "CAP": 4, "CONS": "{TRUE, FALSE}", "EmitOn": emit,
+def dense_cfg(ns, nf, emit=True, rowpar=False, verbs="{0}"):
+    """(the default verbs={0} is what C20 binds: its own option dimension lives in KernelCalls.tla)"""
+    tag = ("_rowpar" if rowpar else "") + ("" if verbs == "{0}" else "_v%d" % verbs.count(","))
+    return common.write_cfg(os.path.join(common.scratch(), "connpix_%dx%d%s.cfg" % (ns, nf, tag)),
+                            constants={"NS": ns, "NF": nf, "CAP": 4, "CONS": "{TRUE, FALSE}", "VERBS": verbs, "EmitOn": emit,
                                        "ROWPAR": rowpar},
-                            invariants=INV)
+                            invariants=["FlagKept"] + INV)
 
 
-def sparse_cfg(ns, nf, algs='{"sparse", "splat"}', bug=False, emit=True, name="", zp=(0, 0)):
+def sparse_cfg(ns, nf, algs='{"sparse", "splat"}', bug=False, emit=True, name="", zp=(0, 0), targs=ALL_T, recs=ALL_R,
+               names=ALL_N, falsy=False):
+    """targs / recs / names only matter when "frame" (the Python wrapper) is among the algorithms"""
     if zp != (0, 0):
         name += "_zp%d%d" % zp
     return common.write_cfg(os.path.join(common.scratch(), "sparsecp_%dx%d%s.cfg" % (ns, nf, name)),
                             constants={"NS": ns, "NF": nf, "CAP": 4, "ALGS": algs, "BUG_SPLAT": bug, "EmitOn": emit,
-                                       "ZPI": zp[0], "ZPJ": zp[1]},
-                            invariants=["NoPoisonRead"] + INV)
+                                       "ZPI": zp[0], "ZPJ": zp[1], "TARGS": targs, "RECS": recs, "NAMES": names,
+                                       "WRAP_FALSY": falsy},
+                            invariants=["NoPoisonRead", "WrapOK"] + INV)
 
 
 def cases_from_dense(res):
@@ -52,7 +72,8 @@ def cases_from_dense(res):
         except ValueError:
             bad += 1
             continue
-        out.append({"ns": r["ns"], "nf": r["nf"], "con8": r["con8"], "tern": [x + 1 for x in r["img"]],
+        out.append({"ns": r["ns"], "nf": r["nf"], "con8": r["con8"], "verbose": r.get("verbose", 0),
+                    "tern": [x + 1 for x in r["img"]],
                     "labels_dense": r["labels"], "np": r["np"], "src": "ConnPix"})
     return out, bad
 
@@ -71,9 +92,12 @@ def cases_from_sparse(res):
             if t > 0:
                 dense[p] = r["labels"][k]
                 k += 1
-        routes = ["sparse", "sparseframe", "dense", "labelimage"] if r["alg"] == "sparse" else ["splat"]
+        routes = {"sparse": ["sparse", "sparseframe", "dense", "labelimage"], "splat": ["splat"], "frame": ["frame"]}[r["alg"]]
         out.append({"ns": r["ns"], "nf": r["nf"], "con8": 1, "tern": r["tern"], "labels_dense": dense,
                     "np": r["np"], "src": "SparseCP/" + r["alg"], "routes": routes})
+        if r["alg"] == "frame":
+            out[-1].update(targ=r["targ"], rec=r["rec"], names=r["names"],
+                           src="SparseCP/frame/%s/%s/%s" % (r["targ"], r["rec"], r["names"]))
         if r.get("zpi") or r.get("zpj"):
             out[-1].update(zpi=r["zpi"], zpj=r["zpj"], src="SparseCP/%s/Z+%d+%d" % (r["alg"], r["zpi"], r["zpj"]))
     return out, bad
@@ -87,11 +111,22 @@ def replay_inprocess(chk, cases, mods):
     plan = [1, 2, 5, before] if before > 0 else [0]
     used = collections.OrderedDict()
     try:
-        _replay_blocks(chk, cases, mods, plan, used)
+        with c11_replay.swallow_stdout():        # (the kernel's banner when a case says verbose != 0)
+            _replay_blocks(chk, cases, mods, plan, used)
     finally:
         if before > 0:
             cImageD11.cimaged11_omp_set_num_threads(before)
     chk.notes["small_case_threads"] = used
+    opt = collections.OrderedDict()
+    for c in cases:
+        if c.get("src") == "ConnPix":
+            k = "connectedpixels con8=%d verbose=%d" % (c["con8"], c.get("verbose", 0))
+        elif "targ" in c:
+            k = "sparse_connected_pixels threshold %s, recorded cut %s, names %s" % (c["targ"], c["rec"], c["names"])
+        else:
+            continue
+        opt[k] = opt.get(k, 0) + 1
+    chk.notes["small_case_option_classes"] = opt
 
 
 def _replay_blocks(chk, cases, mods, plan, used):
@@ -105,7 +140,7 @@ def _replay_blocks(chk, cases, mods, plan, used):
                 cImageD11.cimaged11_omp_set_num_threads(plan[b])
             nt = cImageD11.cimaged11_omp_get_max_threads()
         used[str(nt)] = used.get(str(nt), 0) + 1
-        key = (case["ns"], case["nf"], case["con8"], tuple(case["tern"]), case.get("src"))
+        key = (case["ns"], case["nf"], case["con8"], case.get("verbose", 0), tuple(case["tern"]), case.get("src"))
         try:
             probs = c11_replay.run_case(case, mods, idx)
         except Exception as e:                                  # the kernel / wrapper raised
@@ -114,7 +149,7 @@ def _replay_blocks(chk, cases, mods, plan, used):
         chk.case(key, nontrivial=(ncomp >= 1))
         chk.traces += 1
         if idx in (5, 1234):
-            chk.sample({k: case[k] for k in ("ns", "nf", "con8", "tern", "labels_dense", "np", "src")})
+            chk.sample({k: case[k] for k in ("ns", "nf", "con8", "verbose", "tern", "labels_dense", "np", "src") if k in case})
         for p in probs:
             chk.violation(p, case)
         if len(chk.violations) > 20:
@@ -152,6 +187,8 @@ def replay_asan(chk, cases, tag, prop=PROP):
             chk.violation("[sanitizer build] " + msg, pr["case"])
     chk.notes.setdefault("asan_cases", 0)
     chk.notes["asan_cases"] += out.get("n", 0)
+    for k, v in (out.get("notes") or {}).items():
+        chk.notes.setdefault("observations", []).append("[sanitizer build] %s: %d" % (k, v))
     return out.get("n", 0)
 
 
@@ -424,6 +461,15 @@ def large_jobs(chk, tier, mods, rng, vac):
         n = cImageD11.connectedpixels(data, lab, thr, 0, con8)
         job["lab"], job["n"] = lab, int(n)
         job["outs"].append(("connectedpixels", lab, n))
+        # option crossing: the labels may not depend on verbose, whatever the connectivity (stdout is swallowed)
+        for vb in (1, 2):
+            labv = np.full(im.shape, c11_replay.POISON, np.int32)
+            nv, how = c11_replay.call_dense(cImageD11, data, labv, thr, vb, con8, k + vb)
+            chk.case(("options", name, ns, nf, con8, vb), nontrivial=(n >= 1))
+            vac.add("option_crossing_calls", "connectedpixels con8=%d verbose=%d" % (con8, vb))
+            if nv != n or not np.array_equal(labv, lab):
+                chk.violation("connectedpixels(%s) differs from connectedpixels(threshold, 0, %d) on image %s %dx%d: %d / %d "
+                              "objects" % (how, con8, name, ns, nf, nv, n), dict(info, verbose=vb))
         if big:
             acc = growth_account(im, con8)
             job["growth"] = acc
@@ -479,40 +525,49 @@ def wrapper_routes(chk, mods, job, k, rng, vac):
             chk.violation("%s on image %s %dx%d (values %s, threshold %r): %s" % (
                 route, job["name"], ns, nf, job["vclass"], thr, what), dict(info, route=route))
 
-    for kind in (c11_replay.LI_KINDS[k % 8], c11_replay.LI_KINDS[(k + 3) % 8]):
+    for q, kind in enumerate((c11_replay.LI_KINDS[k % 8], c11_replay.LI_KINDS[(k + 3) % 8])):
+        vb = (k + q) % 3                                  # labelimage.verbose, handed on to the kernel
         try:
             if kind in ("float32", "float64", "fortran", "strided"):
                 arr, t = c11_replay.li_input(kind, data, None, ns, nf, 0, thr)
             else:
                 t, arr = int_values_for(im, rng, getattr(np, kind))
             seen = (ns, nf) in LI_OBJECTS
-            blim, npk = c11_replay.run_labelpeaks(labelimage, arr, t, (ns, nf), reuse=LI_OBJECTS)
-            judge("labelimage.labelpeaks(%s input)" % kind, blim, npk, lab)
+            blim, npk = c11_replay.run_labelpeaks(labelimage, arr, t, (ns, nf), reuse=LI_OBJECTS, verbose=vb)
+            judge("labelimage.labelpeaks(%s input, verbose = %d)" % (kind, vb), blim, npk, lab)
             if seen:
                 vac.add("labelpeaks_on_a_reused_labelimage_object")
         except Exception as e:
             chk.violation("labelimage.labelpeaks(%s input) on image %s: exception %r" % (kind, job["name"], e), info)
         vac.add("labelpeaks_dtype_images" + ("(>=64x64)" if large else "(small)"), kind)
+        vac.add("option_crossing_calls", "labelimage.verbose=%d" % vb)
     listed = job["listed"]
-    ii, jj = sparse_lists(listed)
-    mode = k % 4
-    probs = []
-    try:
-        v = data[listed]
-        decoy = None
-        if mode >= 2 and k % 8 >= 4:
-            # as lima_segmenter.clean: "intensity" = the detector's integers (here: of the complementary image),
-            # "f32" = the float32 array that is labelled
-            decoy = int_values_for(~im, rng, np.uint16 if k % 16 >= 8 else np.uint32)[1][listed]
-        route, got, ngot = c11_replay.run_sparseframe(sparseframe, ii, jj, (ns, nf), v, thr, mode, probs, decoy)
-        judge(route, got, ngot, lab[listed])
-        for pr in probs:
-            chk.violation("%s on image %s %dx%d" % (pr, job["name"], ns, nf), info)
-    except Exception as e:
-        chk.violation("sparseframe.sparse_connected_pixels (mode %d) on image %s: exception %r" % (mode, job["name"], e), info)
-    vac.add("sparse_connected_pixels_images" + ("(>=64x64)" if large else "(small)"),
-            ["default names, meta threshold", "default names, explicit threshold", "f32/cp + decoy, meta threshold",
-             "f32/cp + decoy, explicit threshold"][mode])
+    tern = np.where(im, 2, np.where(listed, 1, 0))
+    # the wrapper's argument classes (SparseCP.tla): the image's own threshold decides the class of the argument (None, or
+    # zero / negative / positive), the recorded cut's class rotates per threshold class, both name classes every time;
+    # the expectation is the array of the threshold REQUESTED
+    tclass = "zero" if thr == 0 else "neg" if thr < 0 else "pos"
+    pairs = [("none", "same")] + [(tclass, rc) for rc in ("below", "above", "absent", "same")]
+    WRAP_ROT[tclass] = WRAP_ROT.get(tclass, common.seed()) + 1
+    ta, rc = pairs[WRAP_ROT[tclass] % len(pairs)]
+    for q, nm in enumerate(("default", "named")):
+        combo = (ta, rc, nm)
+        probs = []
+        rca = rc
+        try:
+            route, got, ngot = c11_replay.run_frame(sparseframe, tern, ns, nf, combo, k + q, probs, data=data, thr=thr)
+            if "[recorded cut none" in route:
+                rca = "absent"           # (no listed pixel on the side asked for: nothing was recorded)
+            judge(route, got, ngot, lab[listed])
+            for pr in probs:
+                chk.violation("%s on image %s %dx%d" % (pr, job["name"], ns, nf), info)
+        except Exception as e:
+            chk.violation("sparseframe.sparse_connected_pixels (%s) on image %s: exception %r" % (combo, job["name"], e), info)
+        vac.add("sparse_connected_pixels_images" + ("(>=64x64)" if large else "(small)"),
+                "threshold %s, recorded cut %s, %s names" % ("None" if ta == "none" else tclass, rca, nm))
+
+
+WRAP_ROT = {}
 
 
 def thread_sweep(chk, mods, jobs, vac):
@@ -530,10 +585,10 @@ def thread_sweep(chk, mods, jobs, vac):
             if got != t:
                 vac.add("thread_sweep_not_applied", "%d (read back %d)" % (t, got))
                 continue
-            for job in jobs:
+            for jn, job in enumerate(jobs):
                 im = job["im"]
                 lab = np.full(im.shape, c11_replay.POISON, np.int32)
-                n = cImageD11.connectedpixels(job["data"], lab, job["thr"], 0, job["con8"])
+                n = cImageD11.connectedpixels(job["data"], lab, job["thr"], (jn + t) % 3, job["con8"])    # (verbose rotates)
                 chk.case(("threads", t, job["name"], im.shape, job["con8"]), nontrivial=(job["n"] >= 1))
                 vac.add("thread_sweep_calls", "%d threads" % t)
                 if t > im.shape[0]:
@@ -571,7 +626,7 @@ def scan_routes(chk, mods, jobs, vac):
             js = sorted(js, key=lambda j: -j["n"])[:14]
             if len(js) == 1:
                 js = js * 2                  # the same image twice (fresh values): the second frame's labels are offset
-            kind = ["float32", "uint16", "uint32", "ulp"][(gi + common.seed()) % 4]
+            kind = ["float32", "uint16", "tiny", "uint32", "ulp"][(gi + common.seed()) % 5]
             rows, cols, vals, nnz, exp = [], [], [], [], []
             frames = [None, "background"]
             for j in js:
@@ -587,8 +642,8 @@ def scan_routes(chk, mods, jobs, vac):
                     lab, n = np.zeros(shape, np.int32), 0
                 else:
                     im, listed, lab, n = fr["im"], fr["listed"], fr["lab"], fr["n"]
-                if kind == "ulp":
-                    thr, d = values_for(im, "ulp", rng)
+                if kind in ("ulp", "tiny"):
+                    thr, d = values_for(im, kind, rng)
                 elif kind == "float32":
                     thr, d = values_for(im, "mid", rng)
                 else:
@@ -625,10 +680,19 @@ def scan_routes(chk, mods, jobs, vac):
                                                              "it not judged" % (sname, info.get("exception", "arrays differ")))
             continue
         for countall in (True, False):
-            route = "SparseScan.cplabel(threshold=%r, countall=%s)" % (thr, countall)
+            # threshold 0 is cplabel's default: asked for by leaving the argument out / as the int 0 by position
+            dflt = (thr == 0)
+            route = "SparseScan.cplabel(%s)" % (("countall=%s" % countall) if dflt and countall else
+                                                ("0, %s" % countall) if dflt else "threshold=%r, countall=%s" % (thr, countall))
             try:
                 with contextlib.redirect_stdout(io.StringIO()):
-                    s.cplabel(threshold=thr, countall=countall)
+                    if dflt and countall:
+                        s.cplabel(countall=countall)
+                        vac.add("cplabel_scans", "threshold left to its default (0)")
+                    elif dflt:
+                        s.cplabel(0, countall)
+                    else:
+                        s.cplabel(threshold=thr, countall=countall)
                 want, nl = [], 0
                 for lab, n in exp:
                     want.append(np.where(lab > 0, lab + nl, 0))
@@ -685,8 +749,9 @@ def certificate_cases(chk, tier, mods):
     kernels' arrays for TLC (TraceCC)"""
     rng = np.random.default_rng(common.seed() + 11)
     vac = Vac()
-    jobs = large_jobs(chk, tier, mods, rng, vac)
-    thread_sweep(chk, mods, jobs, vac)
+    with c11_replay.swallow_stdout():               # (verbose calls print a banner)
+        jobs = large_jobs(chk, tier, mods, rng, vac)
+        thread_sweep(chk, mods, jobs, vac)
     scan_routes(chk, mods, jobs, vac)
     nan_observation(chk, mods)
     recs = []
@@ -724,7 +789,11 @@ def certificate_cases(chk, tier, mods):
     need = [("kernel_runs_with_unions_after_growth", "growth at call %d" % GROW1),
             ("kernel_runs_with_unions_after_growth", "growth at call %d" % GROW2),
             ("thread_sweep_calls", "more threads than rows"), ("thread_sweep_calls", "large image with relabelled pixels"),
-            ("cplabel_scans", "frame offset beyond 16384")]
+            ("cplabel_scans", "frame offset beyond 16384"), ("cplabel_scans", "threshold left to its default (0)"),
+            ("sparse_connected_pixels_images(small)", "threshold zero, recorded cut below, default names"),
+            ("sparse_connected_pixels_images(small)", "threshold zero, recorded cut above, named names"),
+            ("option_crossing_calls", "connectedpixels con8=0 verbose=1"), ("option_crossing_calls", "connectedpixels con8=0 verbose=2"),
+            ("option_crossing_calls", "connectedpixels con8=1 verbose=1"), ("option_crossing_calls", "labelimage.verbose=2")]
     for fam, key in need:
         if not vac.c.get(fam, {}).get(key):
             if fam == "thread_sweep_calls" and "thread_sweep_calls" not in vac.c:
@@ -775,7 +844,10 @@ def run(tier, replay=None):
                 "configured shapes and both connectivities, runs the transcribed kernels and emits the exact labels; "
                 "each case is replayed through connectedpixels, labelimage.labelpeaks, sparse_connectedpixels, "
                 "sparse_connectedpixels_splat, sparseframe.sparse_connected_pixels on the normal and the ASan build, the "
-                "numbers (threshold, values, input dtype, array names, scratch size) rotating with the case index; large "
+                "numbers (threshold, values, input dtype, scratch size, Python type of the arguments, frame constructor) "
+                "rotating with the case index; the option arguments are part of the enumeration (ConnPix: con8 x verbose "
+                "0/1/2; SparseCP 'frame': threshold None / 0 / negative / positive x recorded cut absent / same / below / "
+                "above x array names), each case is replayed with exactly its options; large "
                 "images: one TraceCC certificate per kernel array, the other call shapes by equality with a certified array; "
                 "non-trivial = at least one above-threshold pixel; distinct = distinct (shape, connectivity, image, source)")
     chk.assumptions = ["the threshold is the float32 number the kernels receive (their parameter type): a caller's 0.1 is "
@@ -783,7 +855,9 @@ def run(tier, replay=None):
                        "float64 inputs of labelpeaks hold values float32 represents exactly); no NaN pixels",
                        "small cases: values equal to / one float32 below / 1 below the threshold and one float32 above / "
                        "0.5 / 1 above it, 8 thresholds (4 not exact in float32); large cases add +-inf, subnormals, -0",
-                       "Python wrappers, thread counts, scratch padding and scan files on the large images are judged by "
+                       "sparse_connected_pixels(threshold=None) on a frame without a recorded cut is outside the statement "
+                       "(no threshold is named; the code raises KeyError): not exercised",
+                       "Python wrappers, option arguments, thread counts, scratch padding and scan files on the large images are judged by "
                        "equality with the connectedpixels array of the same image, which TraceCC certifies",
                        "model capacity CAP=4 stands for the code's 16384 (growth rule identical); real growth is "
                        "exercised by the large certificate cases",
@@ -794,7 +868,11 @@ def run(tier, replay=None):
     if replay:
         return run_replay(chk, mods, replay)
 
-    dshapes = [(2, 2), (2, 3), (3, 2), (3, 3), (2, 5), (5, 2)] + ([(3, 4), (4, 3)] if tier == "quick" else [(3, 4), (4, 3), (4, 4)])
+    # (shape, verbose values): every verbose value on every shape up to 10 pixels; in quick the two 12-pixel shapes share the
+    # non-zero ones (each non-zero value still meets both connectivities on 4096 twelve-pixel images)
+    small = [(2, 2), (2, 3), (3, 2), (3, 3), (2, 5), (5, 2)]
+    dshapes = [(sh, VERBS) for sh in small] + ([((3, 4), "{0, 1}"), ((4, 3), "{0, 2}")] if tier == "quick" else
+                                               [((3, 4), VERBS), ((4, 3), VERBS), ((4, 4), "{0}")])
     # (shape, algorithms): the two 12-pixel shapes (531441 ternary images each) are split between the two kernels
     both = '{"sparse", "splat"}'
     sshapes = [((2, 2), both, (0, 0)), ((2, 3), both, (0, 0)), ((3, 3), both, (0, 0))] + ([] if tier == "quick" else
@@ -802,17 +880,25 @@ def run(tier, replay=None):
     # the splat kernel with a scratch sized for a larger frame (ZPI extra rows, ZPJ extra columns)
     sshapes += [((2, 2), '{"splat"}', (1, 2)), ((2, 3), '{"splat"}', (2, 1))] + (
         [] if tier == "quick" else [((3, 2), '{"splat"}', (0, 3)), ((3, 3), '{"splat"}', (1, 1))])
+    # the Python wrapper's argument handling (alg "frame"): (shape, TARGS, NAMES, number of (targ, rec, names) classes)
+    fshapes = [((2, 2), ALL_T, ALL_N, NWRAP), ((2, 3), ALL_T, ALL_N, NWRAP)] + ([] if tier == "quick" else
+               [((3, 2), ALL_T, ALL_N, NWRAP), ((3, 3), '{"none", "zero"}', '{"default"}', 5)])
     allcases = []
-    for (ns, nf) in dshapes:
-        res = common.run_tlc("ConnPix", dense_cfg(ns, nf), workers=16, timeout=3000, coverage=(tier != "quick" and ns * nf <= 9))
-        chk.add_tlc("ConnPix %dx%d" % (ns, nf), res,
-                    require_cover=(("FirstPixel", "FirstRow", "RowStart", "RowEnd", "Compress", "Relabel") if res.coverage else ()))
+    for ((ns, nf), verbs) in dshapes:
+        nv = verbs.count(",") + 1
+        res = common.run_tlc("ConnPix", dense_cfg(ns, nf, verbs=verbs), workers=16, timeout=3000,
+                             coverage=(tier != "quick" and ns * nf <= 9))
+        chk.add_tlc("ConnPix %dx%d verbose %s" % (ns, nf, verbs), res,
+                    require_cover=(("Banner", "FirstPixel", "FirstRow", "RowStart", "RowEnd", "Compress", "Relabel") if res.coverage else ()))
         if res.violated:
             handle_model_violation(chk, "ConnPix", res)
         cs, bad = cases_from_dense(res)
-        if bad or len(cs) != 2 * 2 ** (ns * nf):
+        if bad or len(cs) != 2 * nv * 2 ** (ns * nf):
             raise common.MachineryError("ConnPix %dx%d: emitted %d cases (%d unparsable), expected %d" % (
-                ns, nf, len(cs), bad, 2 * 2 ** (ns * nf)))
+                ns, nf, len(cs), bad, 2 * nv * 2 ** (ns * nf)))
+        for c in cs:
+            if c["verbose"]:
+                c["routes"] = ["dense", "labelimage"]        # the routes that take the option
         allcases += cs
     # the relabel pass as the OpenMP loop it is: rows in any order (the invariants at "done" hold for every schedule)
     for (ns, nf) in ([(3, 3)] if tier == "quick" else [(3, 3), (2, 5), (5, 2), (4, 3)]):
@@ -833,13 +919,26 @@ def run(tier, replay=None):
         if bad or len(cs) != (2 if algs == both else 1) * 3 ** (ns * nf):
             raise common.MachineryError("SparseCP %dx%d: emitted %d cases (%d unparsable)" % (ns, nf, len(cs), bad))
         allcases += cs
+    for ((ns, nf), targs, names, ncls) in fshapes:
+        res = common.run_tlc("SparseCP", sparse_cfg(ns, nf, algs='{"frame"}', name="_frame", targs=targs, names=names),
+                             workers=16, timeout=3000, coverage=(tier != "quick" and ns * nf <= 6))
+        chk.add_tlc("SparseCP %dx%d sparse_connected_pixels arguments %s %s" % (ns, nf, targs, names), res,
+                    require_cover=(("Wrap", "SpSkip", "SpWalk") if res.coverage else ()))
+        if res.violated:
+            handle_model_violation(chk, "SparseCP(frame)", res)
+        cs, bad = cases_from_sparse(res)
+        if bad or len(cs) != ncls * 3 ** (ns * nf) or any(c.get("routes") != ["frame"] for c in cs):
+            raise common.MachineryError("SparseCP %dx%d frame: emitted %d cases (%d unparsable), expected %d" % (
+                ns, nf, len(cs), bad, ncls * 3 ** (ns * nf)))
+        allcases += cs
     t0 = time.time()
     replay_inprocess(chk, allcases, mods)
     chk.notes["replay_s"] = round(time.time() - t0, 1)
     # sanitizer build: a seeded subset (a third in quick, a fifth of the ~1.9M cases in thorough)
     rng = np.random.default_rng(common.seed())
     frac = 0.34 if tier == "quick" else 0.2          # ASan runs the kernels ~3x slower: a seeded subset
-    sel = [c for c in allcases if rng.random() < frac]
+    # (the option classes - verbose != 0, the wrapper's argument classes - repeat the kernels' memory behaviour: a third of that)
+    sel = [c for c in allcases if rng.random() < (frac / 3.0 if (c.get("verbose") or "targ" in c) else frac)]
     replay_asan(chk, sel, "small")
 
     sparsescan_routes(chk, tier)
@@ -848,6 +947,8 @@ def run(tier, replay=None):
     recs, meta = certificate_cases(chk, tier, mods)
     validate_certificates(chk, recs, meta)
     chk.exhaustive = True
+    for k, v in c11_replay.NOTES.items():
+        chk.notes.setdefault("observations", []).append("%s: %d" % (k, v))
     chk.notes["certificates"] = len(recs)
     chk.sample({"certificate_for": list(meta[1]) if meta else None})
 
@@ -857,6 +958,11 @@ def run(tier, replay=None):
         chk.add_tlc("SparseCP BUG_SPLAT (expected: Defined violated)", r)
         if not r.violated:
             raise common.MachineryError("BUG_SPLAT configuration no longer violates Defined (vacuity)")
+        # a wrapper that tests `not threshold`: WrapOK must fail
+        r = common.run_tlc("SparseCP", sparse_cfg(2, 2, algs='{"frame"}', emit=False, name="_falsy", falsy=True), workers=16, timeout=600)
+        chk.add_tlc("SparseCP WRAP_FALSY (expected: WrapOK violated)", r)
+        if r.violated != ["WrapOK"]:
+            raise common.MachineryError("WRAP_FALSY configuration violates %r, expected WrapOK (vacuity)" % (r.violated,))
         selftest(mods)
     return chk.finish()
 
@@ -881,12 +987,16 @@ def run_replay(chk, mods, path):
     case = obj["case"]
     chk.exhaustive = False
     if "tern" in case:
-        for idx in range(c11_replay.NVARIANT):
-            probs = c11_replay.run_case(case, mods, idx)
-            chk.case((tuple(case["tern"]), idx))
-            chk.traces += 1
-            for p in probs:
-                chk.violation(p, case)
+        with c11_replay.swallow_stdout():
+            for idx in range(c11_replay.NVARIANT):
+                try:
+                    probs = c11_replay.run_case(case, mods, idx)
+                except Exception as e:
+                    probs = ["exception %r" % (e,)]
+                chk.case((tuple(case["tern"]), idx))
+                chk.traces += 1
+                for p in probs[:1] if len(chk.violations) > 3 else probs:
+                    chk.violation(p, case)
         chk.sample(case)
         return chk.finish()
     # large image / sanitizer cases: re-run that part of the check
@@ -911,10 +1021,40 @@ def selftest(mods=None):
     bad = dict(case, labels_dense=[1, 0, 0, 2], np=2)
     if not c11_replay.run_case(bad, mods, 0):
         raise common.MachineryError("selftest: wrong expectation accepted")
-    # every rotation of thresholds / values / dtypes / array names accepts the right labels and rejects the wrong ones
-    for idx in range(c11_replay.NVARIANT):
-        if c11_replay.run_case(case, mods, idx) or not c11_replay.run_case(bad, mods, idx):
-            raise common.MachineryError("selftest: variant %d of the value / dtype rotation misjudges" % idx)
+    # every rotation of thresholds / values / dtypes / options / array names accepts the right labels and rejects the wrong
+    with c11_replay.swallow_stdout():
+        for idx in range(c11_replay.NVARIANT):
+            for vb in (0, 1, 2):
+                if c11_replay.run_case(dict(case, verbose=vb), mods, idx) or not c11_replay.run_case(dict(bad, verbose=vb), mods, idx):
+                    raise common.MachineryError("selftest: variant %d of the value / dtype rotation misjudges" % idx)
+        # the wrapper's argument classes: right labels accepted, wrong ones rejected; and the binding sees WHICH number the
+        # kernel was given: a stand-in wrapper that lets exact zeros fall back on the recorded cut must be reported
+        class Falsy(object):
+            def __init__(self, real):
+                self.real = real
+
+            def __getattr__(self, k):
+                return getattr(self.real, k)
+
+            def sparse_connected_pixels(self, frame, label_name="connectedpixels", data_name="intensity", threshold=None):
+                if not threshold:
+                    threshold = frame.meta.get(data_name, {}).get("threshold", 0)
+                return self.real.sparse_connected_pixels(frame, label_name, data_name, threshold)
+        fmods = (mods[0], mods[1], Falsy(mods[2]))
+        fcase = {"ns": 2, "nf": 3, "con8": 1, "tern": [2, 1, 1, 2, 1, 2], "labels_dense": [1, 0, 0, 1, 0, 2], "np": 2,
+                 "routes": ["frame"]}
+        caught = 0
+        for (ta, rc, nm) in c11_replay.COMBOS:
+            fc = dict(fcase, targ=ta, rec=rc, names=nm)
+            for idx in range(0, c11_replay.NVARIANT, 7):
+                if c11_replay.run_case(fc, mods, idx) or not c11_replay.run_case(dict(fc, labels_dense=[1, 0, 0, 2, 0, 3], np=3), mods, idx):
+                    raise common.MachineryError("selftest: wrapper classes %s/%s/%s variant %d misjudged" % (ta, rc, nm, idx))
+                wrong = bool(c11_replay.run_case(fc, fmods, idx))
+                if wrong and not (ta == "zero" and rc in ("below", "above")):
+                    raise common.MachineryError("selftest: stand-in wrapper reported where it behaves (%s/%s)" % (ta, rc))
+                caught += wrong
+        if caught < 8:
+            raise common.MachineryError("selftest: a wrapper using the recorded cut for threshold 0 was reported %d times" % caught)
     # TraceCC decides "strictly above" on the keys: a labelled pixel EQUAL to the float32 threshold is rejected (L1),
     # so is an unlabelled pixel one float32 above it; the right labelling is accepted
     t32 = np.float32(0.1)
